@@ -33,6 +33,7 @@ type vCacheRun struct {
 	pairs   []vKeyPair
 	pairIdx map[vKeyPair]uint64
 	done    []string // helper goroutines that finished since the last op line
+	armed   func(key uint64) // runs once inside the next OnEvict callback (re-entrant call from the sweep)
 }
 
 func (r *vCacheRun) key(h, c uint64) uint64 {
@@ -112,6 +113,10 @@ func vRunCacheCase(t *testing.T, cs *vCacheCase) []string {
 				if it.Value != 0 {
 					r.addCb(fmt.Sprintf("evict:%d:%d:%d:%d", it.Key, it.Conflict, it.Value, it.Cost))
 				}
+				if f := r.armed; f != nil {
+					r.armed = nil
+					f(it.Key)
+				}
 			},
 			OnReject: func(it *Item[uint64]) {
 				if it.Value != 0 {
@@ -189,6 +194,28 @@ func vRunCacheCase(t *testing.T, cs *vCacheCase) []string {
 				}
 			case "sweep":
 				c.storedItems.Cleanup(c.cachePolicy, c.onEvict)
+				res = "ok"
+			case "sweeprw":
+				// a sweep during which the first OnEvict re-writes the OTHER of two keys (the write lands between
+				// the sweep's bucket grab and its per-key check of that key)
+				h1, c1, h2, c2 := vu(op[1]), vu(op[2]), vu(op[3]), vu(op[4])
+				v := vu(op[5])
+				r.mu.Lock()
+				r.costs[v] = vi(op[6])
+				r.mu.Unlock()
+				ttl := time.Duration(vi(op[7]))
+				k1, k2 := r.key(h1, c1), r.key(h2, c2)
+				r.armed = func(first uint64) {
+					var ok bool
+					if first == h1 {
+						ok = c.SetWithTTL(k2, v, 0, ttl)
+					} else {
+						ok = c.SetWithTTL(k1, v, 0, ttl)
+					}
+					r.addCb(fmt.Sprintf("rwset:%d:%v", first, ok))
+				}
+				c.storedItems.Cleanup(c.cachePolicy, c.onEvict)
+				r.armed = nil
 				res = "ok"
 			case "tick":
 				time.Sleep(time.Duration(vi(op[1])))
